@@ -74,7 +74,8 @@ def layout(rng, j):
     out = []
     for ln in merged:
         if rng.random() < 0.15:
-            out.append(rng.choice(['', '# comment = AND(a, b)', '#', '# INPUT(zz)']))
+            out.append(rng.choice(['', '# comment = AND(a, b)', '#', '# INPUT(zz)', '# stage 2 (the slow one', '# closes ) more than it opens',
+                                   '# ((( nested', '#= NOT(']))
         out.append(ln)
     text = '\n'.join(out)
     if rng.random() < 0.5:
